@@ -4,8 +4,10 @@ set -u
 patch=$1; shift
 cd /repo && git status --short | grep -q . && { echo "/repo not clean"; exit 2; }
 git -C /repo apply "$patch" || { echo "patch does not apply"; exit 2; }
-trap 'git -C /repo checkout -- . ; git -C /repo status --short' EXIT
 cd /verif
+# the checks rewrite evidence/<P>.json; what they write about a patched tree must not stay there
+keep=$(mktemp -d); cp -a evidence/. "$keep"/
+trap 'git -C /repo checkout -- . ; git -C /repo status --short; rm -rf /verif/evidence; mkdir /verif/evidence; cp -a "$keep"/. /verif/evidence/; rm -rf "$keep"; (cd /verif && ./lib/build.sh harness >/dev/null 2>&1)' EXIT
 for P in "$@"; do
   out=$(./check $P --tier quick 2>&1); rc=$?
   echo "== $P exit=$rc"; echo "$out" | grep -E "VIOLATION|KNOWN" | cut -c1-170
